@@ -5,11 +5,11 @@ Theorems about `Model.Conn` (the model of libs/p2p/conn as it is today) and abou
 extractor regenerates from the tree on every check (`Gen.ConnFacts`).  Cryptographic and compression laws are explicit
 hypotheses (`Good`, `Unforgeable`), never axioms.
 
-The authentication clause at full strength (`C18_auth_statement`: the *peer* proved possession of the presented key) is
-FALSE of the current code — a key-less attacker that echoes our own handshake bytes is authenticated as ourselves (known
-finding `handshake-reflection-self-auth`); it is kept as a `def`, refuted by a kernel-checked witness, and the strongest
-true statement (`auth`) is proved next to it.  The identity clause one layer up (`C18_identity_statement`: a peer's node
-identity is the authenticated key) fails because nothing outside conn/ ever reads `RemotePubKey` (`identity_unbound`).
+The authentication clause holds at full strength since 57b5264 (`C18_auth_holds : C18_auth_statement`: the signer is the
+*peer*, a session other than ourselves, or the attacker under a key of its own): `MakeSecretConnection` now rejects a peer
+that presents our own public key, which is what the reflection of our own handshake bytes amounted to.  The identity
+clause one layer up (`C18_identity_statement`: a peer's node identity is the authenticated key) still fails because
+nothing outside conn/ ever reads `RemotePubKey` (`identity_unbound`).
 -/
 import LinkVerif.Model.ConnCfg
 import LinkVerif.Props.C18Mux
@@ -61,10 +61,17 @@ theorem capacity_test_precedes_append :
       ["var recvCap, recvReceived = ch.desc.RecvMessageCapacity, len(ch.recving) + len(packet.Bytes)",
        "if recvCap < recvReceived", "ch.recving = append(ch.recving, packet.Bytes...)", "if packet.EOF == byte(0x01)"] := by decide
 
-/-- the handshake rejects a nil key and a signature that does not verify on the challenge — and tests nothing else
-(in particular not whether the presented key or ephemeral key is our own) -/
+/-- the handshake rejects a nil key, OUR OWN key (both ends sign the same challenge: without this test our own signature
+reflected back authenticates a key-less attacker) and a signature that does not verify on the challenge, in this order -/
 theorem handshake_checks :
-    Gen.ConnFacts.handshakeConds = ["err != nil", "err != nil", "remPubKey == nil", "!remPubKey.VerifyBytes(challenge[:], remSignature)"] := by decide
+    Gen.ConnFacts.handshakeConds = ["err != nil", "err != nil", "remPubKey == nil", "remPubKey.Equals(locPubKey)",
+      "!remPubKey.VerifyBytes(challenge[:], remSignature)"] := by decide
+
+/-- the plaintext key exchange reads exactly one encoded key (`io.ReadFull` + `DecodeBytesWithType`); it does not decode
+through `ser.DecodeReaderWithType`, whose throw-away buffered reader would swallow the peer's next handshake message -/
+theorem eph_key_read_exact :
+    "io.ReadFull" ∈ Gen.ConnFacts.ephKeyCalls ∧ "ser.DecodeBytesWithType" ∈ Gen.ConnFacts.ephKeyCalls ∧
+    "ser.DecodeReaderWithType" ∉ Gen.ConnFacts.ephKeyCalls := by decide
 
 /-! ## 1. stream -/
 
@@ -412,16 +419,15 @@ theorem challenge_symmetric (a b : Nat) : mkChal a b = mkChal b a := by
   unfold mkChal
   by_cases h1 : a < b <;> by_cases h2 : b < a <;> simp only [h1, h2, ↓reduceIte, Chal.mk.injEq] <;> omega
 
-/-- **auth (local form)**: a connection is established with presented key `pk` only if the auth message carried `pk` and a
-signature BY `pk` ON THIS SESSION'S CHALLENGE (own ephemeral key + the ephemeral key received) -/
+/-- **auth (local form)**: a connection is established with presented key `pk` only if the auth message carried `pk`, `pk`
+is not our own key, and the signature is BY `pk` ON THIS SESSION'S CHALLENGE (own ephemeral key + the one received) -/
 theorem auth_local (myKey : Key) (myEph : Eph) (remEph : Option Eph) (auth : Option AuthMsg) (pk : Key)
     (h : establish myKey myEph remEph auth = some pk) :
-    ∃ e, remEph = some e ∧ auth = some ⟨some pk, .good ⟨pk, mkChal myEph e⟩⟩ := by
+    pk ≠ myKey ∧ ∃ e, remEph = some e ∧ auth = some ⟨some pk, .good ⟨pk, mkChal myEph e⟩⟩ := by
   unfold establish respond at h
   cases remEph with
   | none => simp at h
   | some e =>
-    refine ⟨e, rfl, ?_⟩
     simp only at h
     unfold finish at h
     split at h
@@ -429,19 +435,23 @@ theorem auth_local (myKey : Key) (myEph : Eph) (remEph : Option Eph) (auth : Opt
     · cases h
     · rename_i k s
       split at h
-      · rename_i hv
-        simp only [Option.some.injEq] at h
-        subst h
-        unfold verify at hv
-        split at hv
-        · rename_i sg
-          simp only [Bool.and_eq_true, beq_iff_eq] at hv
-          obtain ⟨sk, sc⟩ := sg
-          simp only at hv
-          obtain ⟨rfl, rfl⟩ := hv
-          rfl
-        · cases hv
       · cases h
+      · rename_i hself
+        split at h
+        · rename_i hv
+          simp only [Option.some.injEq] at h
+          subst h
+          refine ⟨by simpa using hself, e, rfl, ?_⟩
+          unfold verify at hv
+          split at hv
+          · rename_i sg
+            simp only [Bool.and_eq_true, beq_iff_eq] at hv
+            obtain ⟨sk, sc⟩ := sg
+            simp only at hv
+            obtain ⟨rfl, rfl⟩ := hv
+            rfl
+          · cases hv
+        · cases h
 
 /-- an honest session as the environment sees it: its key, its ephemeral key, the ephemeral key it received -/
 structure Session where
@@ -466,7 +476,7 @@ theorem auth (sessions : List Session) (advKeys : List Key) (P : Session) (authM
     (hunf : ∀ s, authMsg = some ⟨some pk, .good s⟩ → Unforgeable sessions advKeys s)
     (hadv : pk ∉ advKeys) :
     ∃ Q ∈ sessions, Q.key = pk ∧ mkChal Q.eph Q.rem = mkChal P.eph P.rem := by
-  obtain ⟨e, he, ha⟩ := auth_local _ _ _ _ _ hest
+  obtain ⟨_, e, he, ha⟩ := auth_local _ _ _ _ _ hest
   simp only [Option.some.injEq] at he
   subst he
   rcases hunf _ ha with ⟨q, hq, hs⟩ | hs
@@ -478,6 +488,12 @@ theorem auth (sessions : List Session) (advKeys : List Key) (P : Session) (authM
 /-- non-vacuity of `auth`: the honest two-party run -/
 example : establish 1 11 (some 12) (some ⟨some 2, .good (Session.sig ⟨2, 12, 11⟩)⟩) = some 2 := by decide
 
+/-- reflection is rejected: our own key with our own (valid) signature on the shared challenge does not establish -/
+example : establish 1 11 (some 11) (some ⟨some 1, .good (Session.sig ⟨1, 11, 11⟩)⟩) = none := by decide
+
+/-- … also when only the auth frames are swapped by a man in the middle (ephemeral keys untouched) -/
+example : establish 1 11 (some 12) (some ⟨some 1, .good (Session.sig ⟨1, 11, 12⟩)⟩) = none := by decide
+
 /-- FULL STATEMENT of the authentication clause: the key holder that signed is the PEER — an honest session other than
 `P` itself (or the attacker with a key of its own). -/
 def C18_auth_statement : Prop :=
@@ -487,31 +503,13 @@ def C18_auth_statement : Prop :=
     (∀ s, authMsg = some ⟨some pk, .good s⟩ → Unforgeable sessions advKeys s) →
     pk ∈ advKeys ∨ ∃ Q ∈ sessions, Q ≠ P ∧ Q.key = pk ∧ mkChal Q.eph Q.rem = mkChal P.eph P.rem
 
-/-- reflection: the only session is `P`; the attacker owns no key and echoes `P`'s own ephemeral key and auth message -/
-theorem C18_auth_counterexample : ¬ C18_auth_statement := by
-  intro h
-  have := h [⟨1, 11, 11⟩] [] ⟨1, 11, 11⟩ (some ⟨some 1, .good (Session.sig ⟨1, 11, 11⟩)⟩) 1
-    List.mem_cons_self (by decide)
-    (by
-      intro s hs
-      simp only [Option.some.injEq, AuthMsg.mk.injEq, SigTerm.good.injEq, true_and] at hs
-      subst hs
-      exact Or.inl ⟨_, List.mem_cons_self, rfl⟩)
-  rcases this with h1 | ⟨Q, hQ, hne, _⟩
-  · cases h1
-  · simp only [List.mem_singleton] at hQ
-    exact hne hQ
-
-/-- strongest true form: the signer is a session other than `P` as soon as the authenticated key is not `P`'s own —
-i.e. the defect is exactly self-authentication (which the Switch rejects later by comparing NodeInfo keys) -/
-theorem C18_auth_partial (sessions : List Session) (advKeys : List Key) (P : Session) (authMsg : Option AuthMsg) (pk : Key)
-    (hest : establish P.key P.eph (some P.rem) authMsg = some pk)
-    (hunf : ∀ s, authMsg = some ⟨some pk, .good s⟩ → Unforgeable sessions advKeys s)
-    (hself : pk ≠ P.key) :
-    pk ∈ advKeys ∨ ∃ Q ∈ sessions, Q ≠ P ∧ Q.key = pk ∧ mkChal Q.eph Q.rem = mkChal P.eph P.rem := by
+/-- the clause holds of the current code (own-key test of 57b5264): the signer has key `pk ≠ P.key`, hence is not `P` -/
+theorem C18_auth_holds : C18_auth_statement := by
+  intro sessions advKeys P authMsg pk _ hest hunf
   by_cases hadv : pk ∈ advKeys
   · exact Or.inl hadv
   · obtain ⟨Q, hQ, hk, hc⟩ := auth sessions advKeys P authMsg pk hest hunf hadv
+    have hself := (auth_local _ _ _ _ _ hest).1
     exact Or.inr ⟨Q, hQ, fun h => hself (by rw [← hk, h]), hk, hc⟩
 
 /-! ## 4. identity one layer up (libs/p2p/switch.go addPeer) -/
